@@ -161,6 +161,11 @@ fn asp_cfg(rng: &mut Rng) -> g::AspCfg {
     if rng.chance(4) {
         c.preds.extend_from_slice(&["notp", "forallX", "not_"]);
     }
+    if rng.chance(12) {
+        // finding F7e: keyword-prefixed symbolic constants (class F7b once natural / mu / a simplification
+        // puts them first in a comparison) and look-alikes outside the class
+        c.symbols.extend_from_slice(&["notq", "forallX", "existsY", "not_", "forallx", "existsa"]);
+    }
     if rng.chance(25) {
         c.partial_ops = false;
     }
